@@ -2,9 +2,9 @@
 # seed_verify.sh <Cnn> <n>: confirm a seeded change in a scratch worktree and import it into /verif/seeded/<Cnn>-<n>/
 # (suite passes with the change; demo fails with it and passes without it)
 export GOFLAGS=-mod=mod GOPROXY=off GOSUMDB=off GOTOOLCHAIN=local
-id=$1; n=$2; src=/tmp/mut/out-$id
+id=$1; n=$2; src=${3:-/tmp/mut/out-$id}; dn=${4:-$n}
 wt=/tmp/mut/verify-$id-$n
-dst=/verif/seeded/$id-$n
+dst=/verif/seeded/$id-$dn
 git -C /repo worktree add --detach $wt HEAD >/dev/null 2>&1 || { echo "worktree failed"; exit 1; }
 cd $wt
 res="{}"
@@ -24,7 +24,7 @@ else
 fi
 cd /; git -C /repo worktree remove --force $wt
 ok=false; if $applies && $build && $suite && [ $demo_with = fail ] && [ $demo_without = pass ]; then ok=true; fi
-echo "$id-$n applies=$applies build=$build suite=$suite demo_with=$demo_with demo_without=$demo_without place=$place ok=$ok"
+echo "$id-$dn applies=$applies build=$build suite=$suite demo_with=$demo_with demo_without=$demo_without place=$place ok=$ok"
 if $ok; then
   mkdir -p $dst; cp $src/patch$n.diff $dst/patch.diff; cp $src/demo${n}_test.go $dst/demo_test.go
   python3 - <<PY
